@@ -191,12 +191,12 @@ def make_component(c, layout, variant):
 T2 = Translation2d
 FB_DOM = {
     "bool": [False, True], "float": [1.5, 2.25, -0.5], "str": ["a", "bc", ""], "struct": [T2(1, 2), T2(0, 0), T2(-3, 4.5)],
-    "int[]": [[1, 2], [3], [4, 5, 6]], "float[]": [[1.5], [2.0, 3.0], [0.25, 0.5, 0.75]],
+    "int[]": [[1, 2], [3], [4, 5, 6]], "float[]": [[1.5], [2, 3], [0.25, 0.5, 0.75]],
     "bool[]": [[True, False], [False], [True, True, True]], "str[]": [["a"], ["b", "c"], ["", "d"]],
     "struct[]": [[T2(1, 2)], [T2(0, 0), T2(1, 1)], [T2(2, 2), T2(3, 3), T2(4, 4)]],
 }
-FB_ANN = {"int": int, "float": float, "bool": bool, "str": str, "struct": T2, "int[]": list[int], "float[]": Sequence[float],
-          "bool[]": tuple[bool, ...], "str[]": list[str], "struct[]": list[T2]}
+FB_ANN = {"int": int, "float": float, "bool": bool, "str": str, "struct": T2, "int[]": list[int], "float[]": tuple[float, ...],
+          "bool[]": tuple[bool, ...], "str[]": Sequence[str], "struct[]": list[T2]}
 
 
 def add_getter(ns, o, key, variant, ty="int"):
